@@ -26,7 +26,7 @@ RULE = (
     "(changes/normalize for octave_write only) x base_hash in {none, current} x parent directory in {exists, missing} x permission "
     "bits in {0644, 0600, 0444} x document size in {~60 B, ~25 kB}; 36 scenarios in quick. Per scenario the fault-free run is traced "
     "(15-40 file-operation boundaries: lstat/stat/open/read/close/mkdir/mkstemp-open/fchmod/write/flush/fsync/replace/unlink ...) and "
-    "every boundary index x {kill, kill after torn write, ENOSPC, EACCES, EIO, EINTR, EROFS} is executed in a forked child on a fresh "
+    "every boundary index x {kill, kill after torn write, short write (descriptor-level writes), ENOSPC, EACCES, EIO, EINTR, EROFS} is executed in a forked child on a fresh "
     "sandbox (thorough: plus every ordered pair of boundaries for ENOSPC and EIO). Oracle (supervisor): after a kill the target holds "
     "its old bytes (or is still absent) or exactly the fault-free new bytes; a returned error leaves target bytes and mode as before "
     "and no new entry beside it (faults on the clean-up's own stat/unlink of the temp file are counted separately); success => "
@@ -67,6 +67,9 @@ def scenarios(tier: str):
                             if tier == "quick" and fmode == 0o444 and entry != "tool":
                                 continue
                             out.append({"entry": entry, "mode": mode, "base_hash": bh, "parent_missing": parent_missing, "fmode": fmode, "size": size})
+    # lenient write with a schema whose repair re-emits the text after the first emission (hash must be of what is written)
+    for mode in ("new", "overwrite"):
+        out.append({"entry": "tool", "mode": mode, "base_hash": False, "parent_missing": False, "fmode": 0o644, "size": "small", "repair": True})
     return out
 
 
@@ -93,6 +96,9 @@ def run_entry(sc, target, old):
         from octave_mcp.mcp.write import WriteTool
 
         kw = {"target_path": target}
+        if sc.get("repair"):
+            content = content.replace("  TYPE::T\n", "  TYPE::T\n  VERSION::\"1.0\"\n  STATUS::draft\n")
+            kw.update({"lenient": True, "schema": "META"})
         if sc["mode"] in ("new", "overwrite"):
             kw["content"] = content
         elif sc["mode"] == "changes":
@@ -136,6 +142,8 @@ def child(sc, root, plan, result_path):
                 if name == "write":
                     return ("torn", 37)
                 os._exit(137)
+            if plan.get("short"):
+                return ("short", 37) if name == "write" else None
             if code is not None:
                 raise OSError(code, os.strerror(code) + " (injected)")
         return None
@@ -183,7 +191,7 @@ def run_one(sc, base_dir, plan):
 
 
 def label_of(sc):
-    return f"{sc['entry']}/{sc['mode']}/bh{int(sc['base_hash'])}/pm{int(sc['parent_missing'])}/{oct(sc['fmode'])}/{sc['size']}"
+    return f"{sc['entry']}/{sc['mode']}/bh{int(sc['base_hash'])}/pm{int(sc['parent_missing'])}/{oct(sc['fmode'])}/{sc['size']}" + ("/lenient-repair" if sc.get("repair") else "")
 
 
 def check_scenario(sc, base_dir, st: Stats, pairs: bool, only=None):
@@ -215,6 +223,9 @@ def check_scenario(sc, base_dir, st: Stats, pairs: bool, only=None):
         plans.append({"at": [i], "kill": True})
         if trace[i][0] == "write":
             plans.append({"at": [i], "torn": True})
+            if trace[i][1].startswith("fd:") and False:
+                pass
+            plans.append({"at": [i], "short": True})  # only meaningful for descriptor-level os.write (a file object retries by itself)
         for fname, _ in FAULTS:
             plans.append({"at": [i], "fault": fname})
     if pairs:
@@ -229,7 +240,7 @@ def check_scenario(sc, base_dir, st: Stats, pairs: bool, only=None):
         i = plan["at"][0]
         nontrivial = first_mut <= i <= repl
         st.evaluations += 1
-        kind = "kill" if plan.get("kill") else "torn" if plan.get("torn") else plan["fault"]
+        kind = "kill" if plan.get("kill") else "torn" if plan.get("torn") else "short" if plan.get("short") else plan["fault"]
         st.labels["fault_" + kind] += 1
         if nontrivial:
             st.nontrivial_exact += 1
